@@ -870,7 +870,7 @@ _TRIM = {
 # the three map lemma proofs are by far the most expensive ones (6-13 min, 11-15 GB): they run only for the properties
 # whose statement they carry (their safety / allocator-discipline obligations are not needed to decide C01 / C13 / C17 ...:
 # the same code shapes are covered for those by the array and chunk-table proofs)
-_HEAVY_ONLY = {"decref_map_lemma": {"C04"}, "ser_map_lemma": {"C03", "C07"}, "append_map": {"C02", "C14", "C04", "C06"}}
+_HEAVY_ONLY = {"decref_map_lemma": {"C04"}, "ser_map_lemma": {"C03", "C07"}, "append_map": {"C02", "C14", "C04", "C06", "C12"}}
 for _p in PROOFS:
     for _pid, _prefixes in _TRIM.items():
         if _pid in _p["props"] and _p["name"].startswith(_prefixes):
@@ -896,7 +896,8 @@ BUILD_PROPS = {"C02": FUNC + FRAME, "C05": [], "C04": [], "C06": SAFETY, "C01": 
 DECODE_ALIAS = {"C14": ["C02"]}
 for top in ("EMPTY", "DEF_ARRAY", "INDEF_ARRAY", "MAP", "TAG", "BYTESTRING", "STRING"):
     bounded = False
-    P(name="append_" + top.lower() + ("_bounded" if bounded else ""), props=dict(BUILD_PROPS), lib=BUILDLIB, stubs=BUILD_STUBS,
+    P(name="append_" + top.lower() + ("_bounded" if bounded else ""), props=dict(BUILD_PROPS, **({"C12": []} if top == "MAP" else {})),
+      lib=BUILDLIB, stubs=BUILD_STUBS,
       contracts=BUILD_CONTRACTS, harness="harness/builder.c",
       defines=["H_APPEND", "TOP_" + top] + (["VERIF_MAP_CAP=4"] if bounded else []),
       # array / map cases: the transition facts are asserted by the harness on the real function, but its frame contract is
@@ -1044,11 +1045,19 @@ P(name="ser_map_lemma", props={"C03": ["loop"], "C07": ["loop"], "C18": [], "C01
   must_exist=[r"cbor_serialize_map\.loop_invariant_step\.\d+"], min_covers=4, cost=200, timeout=900, object_bits=10, mem_gb=20)
 
 # cbor_decref on a map, lemma style: loop contract over the pair storage + harness assertions, frame not enforced
-P(name="decref_map_lemma", props={"C04": ["loop"], "C13": [], "C01": SAFETY + ["loop"], "C06": []},
+P(name="decref_map_lemma", tier="thorough", props={"C04": ["loop"], "C13": [], "C01": SAFETY + ["loop"], "C06": []},
   lib=ITEMLIB, stubs=ITEM_STUBS + ["stubs/decref_ghost.c"], contracts=DECREF_CONTRACTS, harness="harness/decref.c",
   defines=["KIND_MAP", "VERIF_FIXED_NODES"], enforce=None, also_verified=["cbor_decref"], twins={"cbor_decref": "cbor_decref__child"},
   replace=["cbor_decref__child"], loops="loops/decref.json", loop_fingerprint={"cbor_decref": 4},
-  must_exist=[r"cbor_decref\.loop_invariant_step\.\d+"], min_covers=2, cost=200, timeout=900, object_bits=10, mem_gb=20)
+  must_exist=[r"cbor_decref\.loop_invariant_step\.\d+"], min_covers=2, cost=200, timeout=2400, object_bits=10, mem_gb=24)
+
+# quick-tier stand-in for the proof above (which needs 13 min / 15 GB and lives in the thorough tier): same harness and loop
+# contract, maps of at most 2 pairs
+P(name="decref_map_lemma_bounded", kind="bounded", bound="maps with at most 2 pairs (capacity <= 2)", props={"C04": ["loop"], "C01": SAFETY + ["loop"]},
+  lib=ITEMLIB, stubs=ITEM_STUBS + ["stubs/decref_ghost.c"], contracts=DECREF_CONTRACTS, harness="harness/decref.c",
+  defines=["KIND_MAP", "VERIF_FIXED_NODES", "MAP_BOUND=2", "VERIF_MAP_CAP=2"], enforce=None, also_verified=["cbor_decref"],
+  twins={"cbor_decref": "cbor_decref__child"}, replace=["cbor_decref__child"], loops="loops/decref.json", loop_fingerprint={"cbor_decref": 4},
+  must_exist=[r"cbor_decref\.loop_invariant_step\.\d+"], min_covers=2, cost=100, timeout=900, object_bits=10, mem_gb=12)
 
 # final pass (all proofs registered): restrict the heavy map lemma proofs to their own properties
 for _p in PROOFS:
